@@ -73,9 +73,26 @@ MC_INC = [{"module": "MC_Incentive", "quick": "MC_Incentive_quick.cfg", "thoroug
 MATH_WEIGHT = {"suite": "math", "trace": "Trace_Math", "cfg": "Trace_Math.cfg", "extra": {"kind": "weight"},
                "quick": {"runs": 10, "ops": 2000}, "thorough": {"runs": 200, "ops": 2000}, "procs": 4}
 
+MATH_ST2 = {"suite": "math", "trace": "Trace_Math", "cfg": "Trace_Math.cfg", "extra": {"kind": "st2"},
+            "quick": {"runs": 16, "ops": 240}, "thorough": {"runs": 320, "ops": 600}, "procs": 8}
+MATH_ST3 = {"suite": "math", "trace": "Trace_Math", "cfg": "Trace_Math.cfg", "extra": {"kind": "st3"},
+            "quick": {"runs": 16, "ops": 300}, "thorough": {"runs": 320, "ops": 600}, "procs": 8}
+TRIO_SUITE = {"suite": "trio", "trace": "Trace_Trio", "cfg": "Trace_Trio.cfg",
+              "quick": {"runs": 32, "ops": 120}, "thorough": {"runs": 800, "ops": 200}, "procs": 8}
+MC_STABLE = {"module": "MC_Stable", "quick": "MC_Stable_quick.cfg", "thorough": "MC_Stable.cfg", "workers": 4,
+             "timeout": {"quick": 600, "thorough": 3000}}
+MC_TRIO = [{"module": "MC_Trio", "quick": "MC_Trio_quick.cfg", "thorough": "MC_Trio_ramps.cfg", "workers": 6, "timeout": {"quick": 600, "thorough": 3000}},
+           {"module": "MC_Trio", "quick": "MC_Trio_pool.cfg", "thorough": "MC_Trio_pool.cfg", "workers": 6, "timeout": {"quick": 600, "thorough": 3000}}]
+
+ROUTE_SUITE = {"suite": "route", "trace": "Trace_Router", "cfg": "Trace_Router.cfg",
+               "quick": {"runs": 24, "ops": 60}, "thorough": {"runs": 600, "ops": 120}, "procs": 6}
+MC_ROUTER = {"module": "MC_Router", "quick": "MC_Router.cfg", "thorough": "MC_Router.cfg", "workers": 4}
+
 PROPS = {
     "C01": {"mc": [MC_POOL], "suites": [POOL_SUITE]},
     "C02": {"mc": [MC_CPMATH], "suites": [MATH_CP, POOL_SUITE]},
+    "C03": {"mc": [MC_STABLE], "suites": [MATH_ST2]},
+    "C04": {"mc": [MC_STABLE] + MC_TRIO, "suites": [MATH_ST3, TRIO_SUITE]},
     "C05": {"mc": [MC_VAULT], "suites": [VAULT_SUITE]},
     "C06": {"mc": [MC_VAULT], "suites": [VAULT_SUITE]},
     "C07": {"mc": [MC_POOL, MC_VAULT], "suites": [POOL_SUITE, VAULT_SUITE]},
@@ -103,6 +120,6 @@ PROPS = {
     "C11": {"mc": MC_INC, "suites": [INC_SCHED, INC_RANDOM]},
     "C12": {"mc": MC_INC, "suites": [INC_SCHED, INC_RANDOM]},
     "C13": {"mc": MC_INC, "suites": [INC_SCHED, INC_RANDOM, MATH_WEIGHT]},
-    "C14": {"mc": [MC_POOL, MC_VAULT], "suites": [POOL_SUITE, VAULT_SUITE]},
-    "C15": {"mc": [MC_POOL], "suites": [POOL_SUITE, MATH_SPREAD]},
+    "C14": {"mc": [MC_POOL, MC_VAULT, MC_ROUTER], "suites": [POOL_SUITE, VAULT_SUITE, ROUTE_SUITE, TRIO_SUITE]},
+    "C15": {"mc": [MC_POOL, MC_ROUTER], "suites": [POOL_SUITE, MATH_SPREAD, ROUTE_SUITE]},
 }
